@@ -388,7 +388,7 @@ proof fn lemma_skip(a: ES, rest: ES, all: ES, k: Seq<u8>, t: u64, r: Option<Vec<
 }
 impl KeyValueStore {
     uninterp spec fn snap_spec(&self) -> Snapshot<'_>;
-    // `{ let state = self.state.lock().unwrap(); (Arc::clone(&state.mem), state.imm.clone(), self.tree.take_snapshot(), state.seq_no) }`
+    // `{ let state = self.state.lock().unwrap(); (Arc::clone(&state.mem), state.imm.clone(), self.tree.take_snapshot(), state.visible_seq_no) }` (that the timestamp covers fully applied batches only: unit lsmtk_visible)
     #[verifier::external_body]
     fn snapshot(&self) -> (r: (MemTable, Option<MemTable>, VersionRef<'_>, u64))
         ensures r.0 == self.snap_spec().mem, r.1 == self.snap_spec().imm, r.2 == self.snap_spec().version, r.3 == self.snap_spec().timestamp,
@@ -396,7 +396,7 @@ impl KeyValueStore {
 
 //@ extract lsmtk/src/kvs/mod.rs | impl KeyValueStore :: fn load
 //@ ret r
-//@ rewrite-re X7 `let \(mem, imm, version, timestamp\) = \{\s*let state = self\.state\.lock\(\)\.unwrap\(\);\s*let mem = Arc::clone\(&state\.mem\);\s*let imm = state\.imm\.clone\(\);\s*let version = self\.tree\.take_snapshot\(\);\s*\(mem, imm, version, state\.seq_no\)\s*\};` => `let (mem, imm, version, timestamp) = self.snapshot();`
+//@ rewrite-re X7 `let \(mem, imm, version, timestamp\) = \{\s*let state = self\.state\.lock\(\)\.unwrap\(\);\s*let mem = Arc::clone\(&state\.mem\);\s*let imm = state\.imm\.clone\(\);\s*let version = self\.tree\.take_snapshot\(\);\s*\(mem, imm, version, state\.\w+\)\s*\};` => `let (mem, imm, version, timestamp) = self.snapshot();`
 //@ pre <<
         version_pre(self.snap_spec().version.version, key@),
         snap_ordered(self.snap_spec()),
